@@ -1343,6 +1343,43 @@ func writeSites(b *strings.Builder, root string, files []string, parsed map[stri
 			}
 		}
 	}
+	// golangPprof.go Parse: how many profiles one pprof body yields (appends to the result, and whether one is in a loop)
+	parseAppends, parseInLoop := 0, false
+	for _, p := range files {
+		rel, _ := filepath.Rel(root, p)
+		if rel != "utils/unmarshal/golangPprof.go" {
+			continue
+		}
+		for _, d := range parsed[p].Decls {
+			fd, ok := d.(*ast.FuncDecl)
+			if !ok || fd.Body == nil || fd.Name.Name != "Parse" {
+				continue
+			}
+			var walk func(n ast.Node, inLoop bool)
+			walk = func(n ast.Node, inLoop bool) {
+				ast.Inspect(n, func(x ast.Node) bool {
+					switch y := x.(type) {
+					case *ast.ForStmt:
+						walk(y.Body, true)
+						return false
+					case *ast.RangeStmt:
+						walk(y.Body, true)
+						return false
+					case *ast.AssignStmt:
+						if len(y.Lhs) == 1 && len(y.Rhs) == 1 && exprString(y.Lhs[0]) == "profiles" {
+							if c, ok := y.Rhs[0].(*ast.CallExpr); ok && calleeName(c.Fun) == "append" {
+								parseAppends++
+								parseInLoop = parseInLoop || inLoop
+							}
+						}
+					}
+					return true
+				})
+			}
+			walk(fd.Body, false)
+		}
+	}
+	fmt.Fprintf(b, "\n(* golangPprof.go Parse: appends to its result, one of them inside a loop *)\nDefinition gen_pprof_parse_appends : Z := %d.\nDefinition gen_pprof_parse_append_in_loop : bool := %v.\n", parseAppends, parseInLoop)
 	b.WriteString("\n(* files outside package unmarshal that import it (its only callers) *)\n")
 	b.WriteString("Definition gen_unmarshal_importers : list string := " + strList(importers) + ".\n")
 	fmt.Fprintf(b, "(* index / slice / single-value assertion sites in package unmarshal, all functions *)\nDefinition gen_unmarshal_sites_total : Z := %d.\n", total)
